@@ -212,6 +212,23 @@ def search(ctx: Ctx):
     return None
 
 
+def oracles(ctx: Ctx):
+    """histories: several protect calls at different instants on ONE cache (root key loaded); every blob must name the interval of the
+    instant IT was protected at, whatever the cache served or stored before (sync and async)"""
+    from .. import prothist
+
+    prothist.run_oracle(ctx, prothist.pred_interval, "interval.history")
+
+
+def _hist_replay():
+    from .. import prothist
+
+    return prothist.impl_history, prothist.pred_interval
+
+
+ORACLE_REPLAY = {"interval.history": ((lambda a: _hist_replay()[0](a)), (lambda a, o: _hist_replay()[1](a, o)))}
+
+
 def replay(doc):
     ns = int(doc["input"][1:], 16)
     t = ns // 100 + EPOCH
